@@ -286,3 +286,141 @@ def hdr_hash():
     import hashlib
     import os
     return hashlib.sha256(open(os.path.join(vlib.ROOT, "harness", "v0810.hpp"), "rb").read()).hexdigest()[:12]
+
+
+# ----------------------------------------------------------------------------- generic judge / shrink / replay
+def classify(io, v):
+    """-> (class, signature, text)"""
+    res = v.get("res", "BADCASE:no-verdict")
+    if io.startswith("abort:"):
+        return "fail", io, "implementation aborts (%s); model: %s" % (io[6:], v.get("model", "?"))
+    if res == "ok":
+        return "ok", None, ""
+    if res.startswith("SKIP:"):
+        return "skip", res[5:].split()[0], res
+    if res.startswith("MODEL-ERR:"):
+        return "fail", "ub:" + res[len("MODEL-ERR:"):].split(":")[0], "model reaches an undefined-behaviour state (%s) but the implementation returned" % res
+    if res.startswith("FAIL:"):
+        body = res[5:]
+        parts = body.split(":")
+        sig = parts[0] + (":" + parts[1].split("(")[0].split()[0] if len(parts) > 1 and parts[1] else "")
+        return "fail", sig, v["_line"]
+    if res.startswith("BROKEN:"):
+        return "broken", res[7:].split()[0], v["_line"]
+    return "broken", "driver:" + res.split(":")[0], v["_line"]
+
+
+def generic_correspond(ctx, harness_src, exe, prop, plan_fn, build_line, label, what_text, min_points, batch=40, budget_s=60):
+    import os
+    import time
+    binary, log = ctx.build_harness(harness_src, extra=["-DV0810_HASH=" + hdr_hash()], flags=harness_flags())
+    if not binary:
+        ctx.broken("harness-build", "harness " + harness_src, "harness does not compile against the repository: " + log[-1500:])
+        return
+    t_built = time.time()
+    quick = ctx.tier == "quick"
+
+    def run_one(line):
+        res, err = run_pairs(ctx, binary, exe, [line])
+        return res[0] if res else None
+
+    def report(spec, line, io, v, do_shrink=True):
+        cls, sig, text = classify(io, v)
+        if cls == "fail":
+            small, sline, sio, sv = spec, line, io, v
+            if do_shrink and spec.get("pts"):
+                tests = [0]
+
+                def failing(sub):
+                    if tests[0] >= 20 or len(sub) < max(5, min_points(spec)):
+                        return False
+                    tests[0] += 1
+                    s2 = dict(spec)
+                    s2["pts"] = sub
+                    got = run_one(build_line(s2))
+                    if not got:
+                        return False
+                    c2, sig2, _ = classify(*got)
+                    return c2 == cls and sig2 == sig
+                pts = vlib.ddmin(spec["pts"], failing, max_tests=20)
+                if len(pts) < len(spec["pts"]):
+                    small = dict(spec)
+                    small["pts"] = pts
+                    sline = build_line(small)
+                    got = run_one(sline)
+                    if got:
+                        sio, sv = got
+            detail = {"impl": short(sio, 2000), "model": sv.get("_line", ""),
+                      "stderr": getattr(ctx, "last_abort_stderr", "")[-1500:] if sio.startswith("abort:") else ""}
+            ctx.fail(sig, what_text(small, classify(sio, sv)[2] or text), case=sline, detail=detail)
+        elif cls == "broken":
+            ctx.broken("corr:%s:%s" % (label(spec), sig), "correspondence %s %s (%s)" % (harness_src, label(spec), sig),
+                       what_text(spec, text), case=line, detail={"impl": short(io, 2000), "model": v.get("_line", "")})
+
+    def replay_line(line):
+        got = run_one(line)
+        if not got:
+            ctx.broken("model-driver", exe, "model driver failed on replay")
+            return
+        io, v = got
+        f = fields_of(line)
+        spec = {"op": f.get("op"), "method": f.get("method", f.get("op")), "pts": None, "k": int(f.get("k", "0")),
+                "d": int(f.get("d", "0")), "kind": "replay", "kern": f.get("kern", "?")[:0] or "?", "t": f.get("t"),
+                "metric": "?", "decade": "?", "D": "?", "rot": f.get("rot", "?")}
+        spec["pts"] = [None] * int(f.get("N", "0"))
+        print("replay: impl  :", short(io, 600))
+        print("replay: model :", v["_line"])
+        ctx.count(line, True)
+        ctx.cov["traces_validated_against_impl"] += 1
+        report(spec, line, io, v, do_shrink=False)
+
+    if getattr(ctx, "replay", None) and ctx.replay.get("case"):
+        replay_line(ctx.replay["case"])
+        return
+    cdir = os.path.join(vlib.ROOT, "corpus", prop)
+    if os.path.isdir(cdir):
+        for fn in sorted(os.listdir(cdir)):
+            for l in open(os.path.join(cdir, fn)):
+                l = l.strip()
+                if l.startswith("op="):
+                    replay_line(l)
+    specs = plan_fn(ctx, ctx.rng, quick)
+    reported = set()
+    for i in range(0, len(specs), batch):
+        chunk = specs[i:i + batch]
+        lines = [build_line(s) for s in chunk]
+        res, err = run_pairs(ctx, binary, exe, lines)
+        if res is None:
+            ctx.broken("model-driver", exe, "model driver failed: " + err)
+            return
+        for spec, line, (io, v) in zip(chunk, lines, res):
+            cls, sig, text = classify(io, v)
+            N = len(spec["pts"])
+            ctx.count(line, N >= 6 and cls in ("ok", "fail", "broken"))
+            ctx.stat("case:" + label(spec))
+            ctx.stat("verdict:" + cls + ((":" + sig) if cls == "skip" else ""))
+            for key in ("kern", "kind", "metric", "nm", "decade", "t", "rot"):
+                if key in spec and not (key == "nm" and spec["op"] != "embed"):
+                    ctx.stat("%s:%s" % (key, spec[key]))
+            ctx.stat("d=%d" % spec["d"])
+            ctx.stat("k:" + ("min" if spec["k"] <= 3 else "N-1" if spec["k"] >= N - 1 else "mid"))
+            tally(ctx, v)
+            if cls in ("ok", "fail", "broken"):
+                ctx.cov["traces_validated_against_impl"] += 1
+            if cls == "ok":
+                if len(ctx.cov["samples"]) < 6 and (len(ctx.cov["samples"]) < 3 or spec["op"] == "embed"):
+                    ctx.sample({"case": short(line, 300), "verdict": v["_line"]})
+                continue
+            if cls == "skip":
+                continue
+            import os as _os
+            if _os.environ.get("VERIF_DEBUG"):
+                ctx.log("non-ok:", what_text(spec, text)[:500])
+            key = (cls, sig, label(spec))
+            if key in reported:
+                continue
+            reported.add(key)
+            report(spec, line, io, v)
+        if quick and time.time() - t_built > budget_s:
+            ctx.extra["truncated_after_cases"] = i + batch
+            break
